@@ -215,9 +215,9 @@ def gen_cases(ctx):
 
 def query_list(labels: List[int], pairs) -> List[Tuple[str, ...]]:
     """The canonical list of queries for a tree whose node labels (dict order) are `labels`."""
-    qs: List[Tuple[str, ...]] = [("linearise",), ("leaves",), ("nn",), ("start",), ("updatepath",)]
+    qs: List[Tuple[str, ...]] = [("linearise",), ("leaves",), ("nn",), ("start",), ("updatepath",), ("segs",)]
     for x in labels:
-        for q in ("rootpath", "dist", "subtree", "leavesunder", "subsize", "cachekeys"):
+        for q in ("rootpath", "dist", "subtree", "leavesunder", "subsize", "cachekeys", "nbrs"):
             qs.append((q, str(x)))
     if pairs == "all":
         pl = [(a, b) for a in labels for b in labels]
@@ -240,6 +240,12 @@ STRUCT_SKIP = {"leaves", "nn"}          # depend on the dict order: flat model o
 
 def fmt_ids(names) -> str:
     return " ".join(["ok"] + [str(lab(x)) for x in names])
+
+
+def fmt_segs(update_path, orth_path) -> str:
+    """segments (u_i, orthogonalization_path[i][0]) and the last node of the sweep"""
+    segs = [f"{lab(update_path[i])}>{lab(orth_path[i][0])}" for i in range(len(orth_path))]
+    return " ".join(["ok"] + segs + ["last", str(lab(update_path[-1]))])
 
 
 class CacheStub:
@@ -294,6 +300,15 @@ def impl_answer(ts, q, adj, extra) -> str:
             return fmt_ids([TDVPUpdatePathFinder(ts).start])
         if kind == "updatepath":
             return fmt_ids(TDVPUpdatePathFinder(ts).find_path())
+        if kind == "segs":
+            # the real `_find_tdvp_orthogonalization_path` run on this tree (it only uses `self.state`)
+            import types
+            from pytreenet.time_evolution.tdvp_algorithms.tdvp_algorithm import TDVPAlgorithm
+            up = TDVPUpdatePathFinder(ts).find_path()
+            orth = TDVPAlgorithm._find_tdvp_orthogonalization_path(types.SimpleNamespace(state=ts), up)
+            return fmt_segs(up, orth)
+        if kind == "nbrs":
+            return fmt_ids(ts.nodes[nm(int(q[1]))].neighbouring_nodes())
         if kind == "cachekeys":
             stub = CacheStub(adj)
             saved = sc.contract_any
@@ -452,6 +467,26 @@ def oracle(root, nodes, adj, queries, answers) -> List[str]:
             worst = max(crossings.values(), default=0)
             if worst > 2:
                 probs.append(f"walking the update path {ans[3:]} crosses an edge {worst} times")
+        elif kind == "nbrs":
+            if sorted(parse_ids(ans)) != sorted(adj[args[0]]):
+                probs.append(f"neighbouring_nodes({q[1]}) = {ans[3:]} is not the set of neighbours")
+        elif kind == "segs":
+            toks = ans.split()[1:]
+            segs = [tuple(nm(int(v)) for v in t.split(">")) for t in toks[:-2]]
+            last = nm(int(toks[-1]))
+            ups = [u for u, _ in segs] + [last]
+            if len(segs) != n - 1 or {frozenset(sg) for sg in segs} != edges:
+                probs.append(f"sweep segments {ans[3:]} are not the edges of the tree, each once")
+            else:
+                for i, (u, h) in enumerate(segs):
+                    if bfs_path(adj, u, ups[i + 1], bc)[1] != h:
+                        probs.append(f"segment ({lab(u)},{lab(h)}): {lab(h)} is not the first node toward {lab(ups[i + 1])}")
+                        break
+                    if bfs_path(adj, u, last, bc)[1] != h:
+                        probs.append(f"segment ({lab(u)},{lab(h)}) does not point toward the last node {lab(last)}")
+                        break
+                if n >= 2 and segs[-1][1] != last:
+                    probs.append(f"last segment {segs[-1]} does not end at the last node of the sweep")
         elif kind == "cachekeys":
             keys = [tuple(nm(int(v)) for v in t.split(">")) for t in ans.split()[1:]]
             c = args[0]
@@ -595,13 +630,14 @@ def prepare_real(ctx, case):
     root, nodes = read_structure(ttns)
     adj = adjacency(nodes)
     labels = [lab(k) for k, _, _ in nodes]
-    queries: List[Tuple[str, ...]] = [("updatepath",)] + [("cachekeys", str(x)) for x in labels]
+    queries: List[Tuple[str, ...]] = [("updatepath",), ("segs",)] + [("cachekeys", str(x)) for x in labels]
     answers, extra = [], []
     try:
         answers.append(fmt_ids(TDVPUpdatePathFinder(ttns).find_path()))
     except Exception as e:                  # noqa: BLE001
         impl_answer.last_exc = f"{type(e).__name__}: {str(e)[:80]}"
         answers.append("err")
+    answers.append(impl_answer(ttns, ("segs",), adj, extra))
     for x in labels:
         try:
             cache = SandwichCache.init_cache_but_one(ttns, ttno, nm(x))
@@ -613,7 +649,8 @@ def prepare_real(ctx, case):
     tdvp = None
     try:
         algo = algos.make_algo("tdvp1", ttns, ttno, 0.1, 0.1, [])
-        tdvp = (fmt_ids(algo.update_path), sorted(algo.partial_tree_cache.keys()))
+        tdvp = (fmt_ids(algo.update_path), sorted(algo.partial_tree_cache.keys()),
+                fmt_segs(algo.update_path, algo.orthogonalization_path))
     except Exception as e:                  # noqa: BLE001
         extra.append(f"TDVP constructor raised {type(e).__name__}: {str(e)[:80]}")
     tree = model_tree_tokens(root, nodes)
@@ -638,9 +675,12 @@ def finish_real(ctx, case, p, outs):
                 ctx.corr_fail(case, f"real network, {' '.join(q)}: impl '{a}' {which} model '{m}'")
                 break
         if p["tdvp"] is not None and which == "flat":
-            up, keys = p["tdvp"]
+            up, keys, segs = p["tdvp"]
             if up != model[0]:
                 ctx.corr_fail(case, f"TDVP constructor: update_path '{up}' model '{model[0]}'")
+            if segs != model[1]:
+                ctx.corr_fail(case, f"TDVP constructor: (update_path[i], orthogonalization_path[i][0]) "
+                                    f"'{segs}' model '{model[1]}'")
             first = up.split()[1]
             qi = queries.index(("cachekeys", first))
             want = sorted(tuple(nm(int(v)) for v in t.split(">")) for t in model[qi].split()[1:])
@@ -648,10 +688,11 @@ def finish_real(ctx, case, p, outs):
                 ctx.corr_fail(case, f"TDVP constructor: cache keys {keys} model {want}")
     probs += oracle(p["root"], p["nodes"], p["adj"], queries, answers)
     if p["tdvp"] is not None:
-        up, keys = p["tdvp"]
+        up, keys, segs = p["tdvp"]
         first = up.split()[1]
         ans = " ".join(["ok"] + [f"{lab(a)}>{lab(b)}" for a, b in keys])
-        probs += oracle(p["root"], p["nodes"], p["adj"], [("updatepath",), ("cachekeys", first)], [up, ans])
+        probs += oracle(p["root"], p["nodes"], p["adj"], [("updatepath",), ("segs",), ("cachekeys", first)],
+                        [up, segs, ans])
     if probs:
         ctx.oracle_fail(case, "; ".join(probs[:3]))
 
